@@ -671,6 +671,15 @@ func freeVarStores(fv *ssa.FreeVar) []ssa.Value {
 // the literal's initialisation (unique constant store), if any.
 func constFieldOfLiteral(st *pathState, ptr ssa.Value, field string) (constant.Value, bool) {
 	ptr = st.Resolve(ptr)
+	if call, ok := ptr.(*ssa.Call); ok {
+		// a literal built by a module helper: `statusResponse(code, reason)` returning &T{Field: code}
+		if v, ok := builderFieldValue(call, field, 0); ok {
+			if c, ok := v.(*ssa.Const); ok && c.Value != nil {
+				return c.Value, true
+			}
+		}
+		return nil, false
+	}
 	al, ok := ptr.(*ssa.Alloc)
 	if !ok || al.Referrers() == nil {
 		return nil, false
@@ -888,4 +897,116 @@ func provWithCallers(v ssa.Value, cone []*ssa.Function, depth int) []ssa.Value {
 		}
 	}
 	return out
+}
+
+// predicateHelperImplies: h is a module function with a single boolean result. Does every path of h that can
+// return `truth` satisfy `holds` (given the branch facts of that path, extended by "the returned expression
+// is `truth`" when it is not a constant)? False when h has no such path or cannot be enumerated.
+func predicateHelperImplies(h *ssa.Function, truth bool, holds func(facts map[ssa.Value]bool) bool) bool {
+	if h == nil || len(h.Blocks) == 0 || h.Signature.Results().Len() != 1 {
+		return false
+	}
+	if b, ok := h.Signature.Results().At(0).Type().Underlying().(*types.Basic); !ok || b.Kind() != types.Bool {
+		return false
+	}
+	all, n := true, 0
+	okp := enumPaths(h, nil, nil, nil, func(e pathExit) {
+		ret, isRet := e.Last.(*ssa.Return)
+		if !isRet {
+			return
+		}
+		rv := e.State.Resolve(ret.Results[0])
+		facts := e.State.Facts
+		if b, isC := constBool(rv); isC {
+			if b != truth {
+				return
+			}
+		} else if tv, known := e.State.Truth(rv); known {
+			if tv != truth {
+				return
+			}
+		} else {
+			facts = map[ssa.Value]bool{rv: truth}
+			for k, x := range e.State.Facts {
+				facts[k] = x
+			}
+		}
+		n++
+		if !holds(facts) {
+			all = false
+		}
+	})
+	return okp && all && n > 0
+}
+
+// builderFieldValue: call is a static call of a module function whose every return hands out one freshly
+// allocated struct (or the result of another such builder); returns the value stored into `field` of that
+// struct, expressed in the caller's terms (a constant, or the caller's argument when the builder stores one of
+// its parameters). Only fields stored exactly once in the builder are resolved.
+func builderFieldValue(call *ssa.Call, field string, depth int) (ssa.Value, bool) {
+	h := call.Call.StaticCallee()
+	if h == nil || !inModule(h) || len(h.Blocks) == 0 || depth > 2 {
+		return nil, false
+	}
+	var result ssa.Value
+	nret := 0
+	for _, b := range h.Blocks {
+		ret, ok := b.Instrs[len(b.Instrs)-1].(*ssa.Return)
+		if !ok {
+			continue
+		}
+		nret++
+		if len(ret.Results) != 1 {
+			return nil, false
+		}
+		if result != nil && result != ret.Results[0] {
+			return nil, false
+		}
+		result = ret.Results[0]
+	}
+	if nret == 0 || result == nil {
+		return nil, false
+	}
+	mapBack := func(v ssa.Value) (ssa.Value, bool) {
+		if c, ok := v.(*ssa.Const); ok {
+			return c, true
+		}
+		if i := paramIndex(h, v); i >= 0 && i < len(call.Call.Args) {
+			return call.Call.Args[i], true
+		}
+		return nil, false
+	}
+	// stores into the field of the returned object inside the builder itself
+	var stored ssa.Value
+	n := 0
+	if refs := result.Referrers(); refs != nil {
+		for _, ref := range *refs {
+			fa, ok := ref.(*ssa.FieldAddr)
+			if !ok {
+				continue
+			}
+			if fv := fieldVarOf(fa); fv == nil || fv.Name() != field {
+				continue
+			}
+			for _, s := range storesTo(fa) {
+				n++
+				stored = s.Val
+			}
+		}
+	}
+	switch x := result.(type) {
+	case *ssa.Alloc:
+		if n == 1 {
+			return mapBack(stored)
+		}
+	case *ssa.Call:
+		if n == 0 {
+			if v, ok := builderFieldValue(x, field, depth+1); ok {
+				return mapBack(v)
+			}
+		} else if n == 1 {
+			return mapBack(stored)
+		}
+	}
+	return nil, false
 }
